@@ -1,0 +1,17 @@
+//go:build verif
+
+// Contracts for the remoting envelope codec (property C13: total - an error, never a crash). Comment-only:
+// compiled under the build tag `verif` and read by /verif/engine (govc).
+
+package serialize
+
+// encoding / decoding an envelope never panics - whatever the message, with or without a user codec (codec == nil
+// is the default configuration), for every byte string
+//@ func EncodeEnvelopWithRemoting
+//@   callspec QueryMessageDesc ensures messages.regwf()
+//@   requires envelop != nil && messages.regwf()
+//@   requires envSender(envelop) != nil ==> !nilptr(envSender(envelop))
+//@   requires envReceiver(envelop) != nil ==> !nilptr(envReceiver(envelop))
+//@ func DecodeEnvelopWithRemoting
+//@   callspec ReadInto ensures messages.regwf()
+//@   requires messages.regwf()
